@@ -21,9 +21,13 @@ func genSched(r *Rng, phase string) []*Scenario {
 	card := r.Chance(0.12) // a scenario whose documents carry many distinct keys
 	for i := 0; i < nd; i++ {
 		if card {
-			d := cardinality(r)
-			if len(d) > 1500 {
+			volume := r.Chance(0.4)
+			d := cardinalityN(r, volume)
+			if len(d) > 1500 && !volume {
 				d = d[:1500]
+			}
+			if len(d) > 5000 {
+				d = d[:5000]
 			}
 			s.Docs = append(s.Docs, d)
 			continue
@@ -78,11 +82,11 @@ func genSched(r *Rng, phase string) []*Scenario {
 			}
 			t.Render = &rs
 			if kind == "render" && r.Chance(0.15) {
-				t.Writer = &WriterScn{Flavour: "writer", FailAt: r.Intn(4), ByteBudget: -1}
+				t.Writer = &WriterScn{Flavour: "writer", FailAt: r.Intn(4), ByteBudget: -1, Full: r.Chance(0.25)}
 			}
 		case "format":
 			if r.Chance(0.15) {
-				t.Writer = &WriterScn{Flavour: r.Pick(writerFlavours), FailAt: r.Intn(20), ByteBudget: -1}
+				t.Writer = &WriterScn{Flavour: r.Pick(writerFlavours), FailAt: r.Intn(20), ByteBudget: -1, Full: r.Chance(0.25)}
 			}
 		case "walk":
 			t.Walk = genWalkScn(r, 4)
